@@ -34,7 +34,7 @@ def tt(x):
 
 
 def make_world(ex, shape, real):
-    return World(ex, shape["n"], nprio=len(shape.get("methods") or shape.get("kwmethods") or shape["two"]) + 2, real=real)
+    return World(ex, shape["n"], nprio=len(shape.get("methods") or shape.get("kwmethods") or shape.get("two") or [0, 0, 0]) + 2, real=real)
 
 
 _MS = {}
@@ -112,6 +112,51 @@ def make_run_kw(W, shape, known_active=None):
                     ok = False
             known.append((KNOWN_LEVELS, ok))
         return Verdict(same, known, info, [base[1][0], "extras" if extras else "noextras"], nontrivial=len(base[0]) >= 1)
+
+    return run
+
+
+_DER = {}
+ARRANGEMENTS = [            # (registered on the base, registered on a copy() of it); h0 and h1 share a signature, h1 is the current definition
+    ([0, 1, 2], None), ([2, 0, 1], None), ([0, 2, 1], None),
+    ([0], [1, 2]), ([2], [0, 1]), ([0, 2], [1]), ([0, 1], [2]), ([2, 0], [1]), ([], [0, 1, 2]), ([0], [2, 1]),
+]
+
+
+def make_run_derived(W, shape, known_active=None):
+    """the same three methods -- two with one signature, of which the later one is the current definition, and a third -- registered in
+    different orders and at different moments (on a function, or partly on a function and partly on a copy() of it): the call must have one outcome"""
+    from ovld import Ovld
+
+    n = shape["n"]
+    ta, tb = shape["derived"]
+    key = repr((ta, tb))
+    ms = _DER.get(key)
+    if ms is None:
+        def term(t):
+            return ("obj",) if t == n else ("K", t)
+        ms = _DER[key] = MethodSet([dict(pos=[("x", term(ta), False)]), dict(pos=[("x", term(ta), False)]), dict(pos=[("x", term(tb), False)])])
+
+    def scenario(arr):
+        hs, LOG, ns = ms.instantiate(W)
+        base_regs, copy_regs = arr
+        ov = Ovld()
+        for m in base_regs:
+            ov.register(hs[m], priority=0)
+        if copy_regs is not None:
+            ov = ov.copy()
+            for m in copy_regs:
+                ov.register(hs[m], priority=0)
+        a = W.inst[shape["arg"]]
+        return full_outcome(lambda: ov(a), LOG)
+
+    def run(ctx):
+        base = scenario(ARRANGEMENTS[0])
+        k = 1 + ctx.choose("arrangement", len(ARRANGEMENTS) - 1)
+        var = scenario(ARRANGEMENTS[k])
+        same = base == var
+        info = dict(family="derived", signature_types=[ta, ta, tb], canonical=base, variant=var, arrangement=[ARRANGEMENTS[k][0], ARRANGEMENTS[k][1]])
+        return Verdict(same, (), info, [base[1][0]], nontrivial=len(base[0]) >= 1)
 
     return run
 
@@ -202,6 +247,8 @@ def make_run(W, shape, known_active=None):
         return make_run_kw(W, shape, known_active)
     if shape.get("two"):
         return make_run_two(W, shape, known_active)
+    if shape.get("derived"):
+        return make_run_derived(W, shape, known_active)
 
     if known_active is None:
         known_active = runner.active_known_ids(PID)
@@ -342,13 +389,14 @@ def gen_shapes(tier, seed):
     for ms_ in itertools.combinations(pairs, 3):
         twofam.append(dict(n=n, two=[list(t) for t in ms_], args=[0, 1]))
     rng.shuffle(twofam)
-    total = len(plain) + len(rich) + len(kwfam) + len(twofam)
+    derfam = [dict(n=n, derived=[ta, tb], arg=0) for ta in range(n + 1) for tb in range(n + 1) if ta != tb]
+    total = len(plain) + len(rich) + len(kwfam) + len(twofam) + len(derfam)
     rng.shuffle(kwfam)
     rng.shuffle(rich)
     if tier == "quick":
-        shapes = plain + rich[:150] + kwfam[:40] + twofam[:60]
+        shapes = plain + rich[:150] + kwfam[:40] + twofam[:60] + derfam
     else:
-        shapes = plain + rich[:260] + kwfam + twofam[:400]
+        shapes = plain + rich[:260] + kwfam + twofam[:400] + derfam
         for _ in range(40):
             shapes.append(dict(n=4, methods=rng.sample([("K", i) for i in range(4)] + [("obj",)], 4), arg=0))
     for sh in shapes:
@@ -419,7 +467,8 @@ def main(tier, seed):
     return runner.finish(
         PID, tier, seed, t0, results,
         bounds=dict(classes=3, methods="2-3 distinct signatures (+2 non-applicable extras)", positions="1; a two-position family (3 methods over (Ki|object)^2, "
-                    "call (K0(), K1()): candidates tied on the sum of their specificities) and a keyword-only family",
+                    "call (K0(), K1()): candidates tied on the sum of their specificities), a keyword-only family, and a derived family (two methods with one "
+                    "signature and a third, registered in 10 arrangements over a function and a copy() of it)",
                     set_order="every internal set of <= %d elements (typemap, mro, recode, core) iterates in the order of one symbolic "
                               "ranking of its elements (a stand-in for hash positions), shared by all sets; every ranking explored" % (4 if tier == "quick" else 6),
                     registration_order="every permutation of the distinct signatures",
